@@ -326,9 +326,9 @@ Section Spec.
   Definition class2 (x : input) : bool :=
     negb (is_nil (the_entries (flat x))) && negb (f_mds (flat x)).
 
-  (* class 3 (finding C10-F5, OPEN): an ONLY_REQUIRED entity category is configured and the requester
+  (* class 3 (finding C10-F5, repaired by 4be62a1c; kept for Corr.cls): an ONLY_REQUIRED entity category is configured and the requester
      REQUIRES an attribute whose FriendlyName, read BEFORE Name + NameFormat (label first, as
-     Policy.get_entity_categories does), names another attribute than the one Name + NameFormat stand for *)
+     Policy.get_entity_categories did), names another attribute than the one Name + NameFormat stand for *)
   Definition label_first_name (d : reqattr) : list string :=
     match tr (ra_friendly d) with
     | Some f => [lower f]
@@ -344,8 +344,8 @@ Section Spec.
   Definition wf (x : input) : bool :=
     is_nil (the_entries (flat x)) || negb (mem "" (keys (i_ident x))).
 
-  (* the input assumption, and outside the class of the open finding C10-F5 *)
-  Definition guard (x : input) : bool := wf x && negb (class3 x).
+  (* only the input assumption: no finding class is excluded (C10-F1, C10-F2, C10-F5 are repaired) *)
+  Definition guard (x : input) : bool := wf x.
 
   (* ---- the life of one Policy object: what is released by a call is judged against the user, the
      requester AS DESCRIBED AT THE TIME OF THAT CALL (declared required/optional attributes, entity
